@@ -684,7 +684,7 @@ func runC13(ctx *h.Ctx) int {
 		k.Nontrivial("redef", i1, i2-i1)
 	})
 	return ctx.Finish(
-		"files with 1..6 const definitions (single/multi-token values, constants defined from earlier constants, defined at the top or between items) used at every documented site: command arguments (incl. AutoVar commands), flag/var/defeated operands, comparison values incl. value(), switch operands and case values, map-script table vars/values, mart items; decoys equal to a constant's name at sites that must not be substituted (command name, movement step in statement and moves(), label, script/text/mart name, text content, map-script type and plain label, poryswitch key and case). Oracle: compile(P) byte-identical to compile(P') where P' has every use textually replaced by the fully expanded value and the const lines removed (decoys untouched in both); same acceptance; redefinition rejected. distinct = (definition shapes, number of uses, output size class)",
+		"files with 1..6 const definitions (single/multi-token values, constants defined from earlier constants, defined at the top or between items) used at every documented site: command arguments (incl. AutoVar commands), flag/var/defeated operands, comparison values incl. value(), switch operands and case values, map-script table vars/values, mart items; decoys equal to a constant's name at sites that must not be substituted (command name, movement step in statement and moves(), label, script/text/mart name, text content, map-script type and plain label, poryswitch key and case). Oracle: compile(P) byte-identical to compile(P') where P' has every use textually replaced by the fully expanded value and the const lines removed (decoys untouched in both); same acceptance; redefinition (also with the same value) rejected; an unlisted position (step multiplier) that takes a constant for one spelling of a number must equal the written-out program and take the hexadecimal spelling too. distinct = (definition shapes, number of uses, output size class)",
 		ctx.N(500, 5000),
 		[]string{"constants are not used as flag/defeated comparison values (true/false are checked on the written token)", "mart items only use constants whose value is a single identifier"})
 }
